@@ -260,6 +260,12 @@ def run_check(pid, tier, prop_module, repo_factory, quiet=False, write_evidence=
     for s in rule_summaries:
       print('  %-28s instances=%-3d held=%-3d violated=%-2d %s' % (
         s['rule'], s['instances'], s['held'], s['violated'], '(undecided)' if s['undecided'] else ''))
+    if selftest_result:
+      st = selftest_result
+      print('  self-test: %d/%d seeded changes reported (%d not applicable), %d/%d stored refactorings silent, %d/%d generated '
+            'overlays silent' % (st.get('seeded_killed', 0), st.get('seeded_total', 0) - st.get('seeded_not_applicable', 0),
+                                 st.get('seeded_not_applicable', 0), st.get('refactorings_silent', 0), st.get('refactorings_total', 0),
+                                 st.get('benign_silent', 0), st.get('benign_total', 0)))
     for ln in lines:
       print(ln)
   return code, evidence, lines
